@@ -1229,6 +1229,12 @@ CASES = [
  dict(name="c19-runtime-metadata-pairs-guard-off-by-one", ids=["C19"], rule="C19.R12", subs=[("backend/BackendWorker.h", "            (transit_event->named_args->size() >= 3))", "            (transit_event->named_args->size() > 3))")]),
  dict(name="c05-read-loop-leaves-on-node-switch", ids=["C05", "C06"], rule="R", subs=[("backend/BackendWorker.h", "        read_pos = _read_unbounded_frontend_queue(frontend_queue, thread_context);\n", "        read_pos = _read_unbounded_frontend_queue(frontend_queue, thread_context);\n        if (frontend_queue.capacity() != queue_capacity) { break; }\n")]),
  dict(name="c17-logger-freed-by-swap-and-pop", ids=["C17"], rule="C17.R6c", subs=[("core/LoggerManager.h", "            it = _loggers.erase(it);", "            std::iter_swap(it, _loggers.end() - 1); _loggers.pop_back();")]),
+ dict(name="c04-set-size-pass-as-accumulate-with-one-byte-too-many", ids=["C04"], rule="C04.R1", subs=[("std/Set.h", """      for (auto const& elem : arg)
+      {
+        total_size += Codec<Key>::compute_encoded_size(conditional_arg_size_cache, elem);
+      }""", """      total_size = std::accumulate(
+        arg.begin(), arg.end(), total_size, [&conditional_arg_size_cache](size_t acc, Key const& elem)
+        { return acc + Codec<Key>::compute_encoded_size(conditional_arg_size_cache, elem) + sizeof(char); });"""), ("std/Set.h", "#include <set>\n", "#include <numeric>\n#include <set>\n")]),
  dict(name="c06-prefix-removed-logger-sinks-not-collected", ids=["C06"], rule="C06.R4c", subs=[(BW, """        for (std::shared_ptr<Sink> const& sink : logger->sinks)
         {
           Sink* logger_sink_ptr = sink.get();""", """        if (logger->is_valid_logger())
